@@ -274,9 +274,10 @@ Proof. induction m as [|m IH]; intros bs L; do 8 (destruct bs as [|? bs]; [refle
 Lemma fes_to_bytes_length vs : length (fes_to_bytes vs) = (length vs * 5 / 8)%nat.
 Proof. unfold fes_to_bytes. rewrite (chunk8_length (length (bits_of_syms vs))) by lia. rewrite bits_of_syms_length. f_equal. lia. Qed.
 
-(* the known finding F5 as a decidable class of parse results *)
-Definition known_F5 (a : address) : Prop :=
-  a_blinder a <> None /\ exists v prog, a_payload a = WitnessProgram v prog /\ v <> 0 /\ (length prog < 2)%nat.
+(* the witness-program length test of Address::from_bech32 (repair of finding F5): exactly 2..40 bytes pass.  The bounds are regenerated
+   from src/address.rs; this lemma is where a changed bound breaks the proofs. *)
+Lemma prog_len_ok prog : prog_len_bad prog = false <-> (2 <= length prog <= 40)%nat.
+Proof. unfold prog_len_bad. change ADDR_PROG_LEN_MIN with 2. change ADDR_PROG_LEN_MAX with 40. rewrite orb_false_iff, !N.ltb_ge. lia. Qed.
 (* what the property promises about every successfully parsed address *)
 Definition required_code (blinded : bool) (v : N) : code :=
   if blinded then (if v =? 0 then blech32 else blech32m) else (if v =? 0 then bech32 else bech32m).
@@ -310,30 +311,26 @@ Proof. repeat split. Qed.
 Lemma cfg_blech_facts : sw_max_version cfg_blech = 16 /\ sw_len_min cfg_blech = 2%nat /\ sw_len_max cfg_blech = 73%nat /\ sw_len_v0_a cfg_blech = 53%nat /\ sw_len_v0_b cfg_blech = 65%nat.
 Proof. repeat split. Qed.
 
-Lemma from_bech32_shape s bl p a : from_bech32 pkv s bl p = AOk a -> ~ known_F5 a -> shape_ok s a /\ a_params a = p /\
+Lemma from_bech32_shape s bl p a : from_bech32 pkv s bl p = AOk a -> shape_ok s a /\ a_params a = p /\
   match a_blinder a with Some b => bl = true /\ length b = 33%nat /\ pkv b = true | None => bl = false end.
-Proof. unfold from_bech32. intros E NK. destruct bl.
+Proof. unfold from_bech32. intros E. destruct bl.
   - destruct (segwit_decode cfg_blech s) as [[v data]|] eqn:D; [|discriminate].
     destruct (Nat.ltb_spec (length data) 33) as [|L33]; [discriminate|].
     assert (LPK : length (firstn 33 data) = 33%nat) by (rewrite firstn_length; lia).
     assert (LSK : length (skipn 33 data) = (length data - 33)%nat) by apply skipn_length.
     remember (firstn 33 data) as pk eqn:Epk. remember (skipn 33 data) as prog eqn:Eprog. clear Epk Eprog.
-    destruct (pkv pk) eqn:PK; [|discriminate].
-    inversion E; subst a; clear E. destruct (segwit_decode_inv _ _ _ _ D) as (h & d & w & rest & body & R & P & S & -> & LV & VC & _ & F & VP & VW & ->).
+    destruct (pkv pk) eqn:PK; [|discriminate]. destruct (prog_len_bad prog) eqn:PL; [discriminate|]. apply prog_len_ok in PL.
+    injection E as <-. destruct (segwit_decode_inv _ _ _ _ D) as (h & d & w & rest & body & R & P & S & -> & LV & VC & _ & F & VP & VW & ->).
     destruct cfg_blech_facts as (F1 & F2 & F3 & F4 & F5). rewrite F1 in LV.
     apply validate_wpl_ok in VW as [[LB UB] V0]. rewrite F2 in LB. rewrite F3 in UB. rewrite F4, F5 in V0.
     rewrite fes_to_bytes_length in L33, LSK.
     apply validate_checksum_ok in VC as [_ V]; [|unfold code_for; destruct (v =? 0); vm_compute; discriminate].
-    pose proof LSK as LP.
     split; [|split; [reflexivity|cbn [a_blinder]; split; [reflexivity|split; assumption]]].
-    unfold shape_ok. cbn [a_payload a_blinder]. rewrite LP. split; [assumption|]. split; [|split].
-    + destruct (N.eq_dec v 0) as [->|NZ]; [specialize (V0 eq_refl); lia|]. split; [|lia].
-      destruct (Nat.lt_ge_cases (length body * 5 / 8 - 33) 2) as [LT|]; [|assumption]. exfalso. apply NK. split; [cbn; discriminate|].
-      eexists _, _. split; [reflexivity|]. split; [assumption|]. now rewrite LP.
+    unfold shape_ok. cbn [a_payload a_blinder]. split; [assumption|]. split; [exact PL|]. split.
     + intros ->. specialize (V0 eq_refl). lia.
     + exists h, d, (v :: rest). repeat split; try assumption; try (unfold code_for in V; unfold required_code; destruct (v =? 0); exact V).
-  - destruct (segwit_decode cfg_bech s) as [[v data]|] eqn:D; [|discriminate].
-    inversion E; subst a; clear E. destruct (segwit_decode_inv _ _ _ _ D) as (h & d & w & rest & body & R & P & S & -> & LV & VC & _ & F & VP & VW & ->).
+  - destruct (segwit_decode cfg_bech s) as [[v data]|] eqn:D; [|discriminate]. destruct (prog_len_bad data) eqn:PL; [discriminate|].
+    injection E as <-. destruct (segwit_decode_inv _ _ _ _ D) as (h & d & w & rest & body & R & P & S & -> & LV & VC & _ & F & VP & VW & ->).
     destruct cfg_bech_facts as (F1 & F2 & F3 & F4 & F5). rewrite F1 in LV.
     apply validate_wpl_ok in VW as [[LB UB] V0]. rewrite F2 in LB. rewrite F3 in UB. rewrite F4, F5 in V0.
     apply validate_checksum_ok in VC as [_ V]; [|unfold code_for; destruct (v =? 0); vm_compute; discriminate].
@@ -341,9 +338,9 @@ Proof. unfold from_bech32. intros E NK. destruct bl.
     exists h, d, (v :: rest). repeat split; try assumption; try (unfold code_for in V; unfold required_code; destruct (v =? 0); exact V). Qed.
 
 (* C06_parsed_shape *)
-Theorem parsed_shape s p a : parse_with_params H pkv s p = AOk a -> ~ known_F5 a -> shape_ok s a /\ a_params a = p.
-Proof. unfold parse_with_params. intros E NK. destruct (_ || _).
-  - destruct (from_bech32_shape _ _ _ _ E NK) as (A & B & _). now split.
+Theorem parsed_shape s p a : parse_with_params H pkv s p = AOk a -> shape_ok s a /\ a_params a = p.
+Proof. unfold parse_with_params. intros E. destruct (_ || _).
+  - destruct (from_bech32_shape _ _ _ _ E) as (A & B & _). now split.
   - destruct (too_long_for_base58 s); [discriminate|]. destruct (b58_decode_check H s) as [data|]; [|discriminate].
     destruct (from_base58_shape _ _ _ s E) as (A & B & _). now split. Qed.
 
